@@ -69,19 +69,30 @@ def fieldNames (flds : List (String × Fld)) (prims : Fld → List String) : Lis
 `buffer` and checked for UTF-8 before they become `uri`) -/
 def decFieldName (ty : String) (b : String) : String := if ty == "URI" && b == "buffer" then "uri" else b
 
-/-- `_` = the reader call is not `let`-bound (array literal of EUI48/EUI64, `push` in the TXT loop): any field -/
-def namesOk (ty : String) : List String → List String → Bool
-  | [], [] => true
-  | m :: ms, b :: bs => (b == "_" || m == decFieldName ty b) && namesOk ty ms bs
-  | _, _ => false
+/-- alternative spellings of one field's calls: an octet array may be read / written by `n` unrolled `u8` calls or by
+one `u8` call in a loop over the array -/
+def altPrims (prims : Fld → List String) (f : Fld) : List (List String) :=
+  match f with
+  | .oct _ 1 => [prims f, ["u8*"]]
+  | _ => [prims f]
+
+/-- do the extracted steps `(name, call)` spell the field list, in order?  `nameOk model extracted` compares the field
+a step belongs to -/
+def matchFlds (prims : Fld → List String) (nameOk : String → String → Bool) :
+    List (String × Fld) → List (String × String) → Bool
+  | [], steps => steps.isEmpty
+  | (fname, f) :: rest, steps =>
+    (altPrims prims f).any fun alt =>
+      alt == (steps.take alt.length).map (·.2) && (steps.take alt.length).all (fun st => nameOk fname st.1) &&
+      alt.length ≤ steps.length && matchFlds prims nameOk rest (steps.drop alt.length)
 
 def decEntryOk (e : String × String × List (String × String)) : Bool :=
   match typeCode e.1 with
   | none => false
   | some c => match rrKind c with
     | some (.regular i) =>
-        i.tname == e.1 && classRule i == e.2.1 && i.flds.flatMap (fun p => decPrims p.2) == e.2.2.map (·.2) &&
-        namesOk e.1 (fieldNames i.flds decPrims) (e.2.2.map (·.1))
+        i.tname == e.1 && classRule i == e.2.1 &&
+        matchFlds decPrims (fun m b => b == "_" || m == decFieldName e.1 b) i.flds e.2.2
     | _ => false
 
 def encEntryOk (e : String × String × String × Bool × List (String × String)) : Bool :=
@@ -90,8 +101,7 @@ def encEntryOk (e : String × String × String × Bool × List (String × String
   | some c => match rrKind c with
     | some (.regular i) =>
         i.tname == e.1 && e.2.1 == e.1 && encClassRule i == e.2.2.1 && e.2.2.2.1 &&
-        i.flds.flatMap (fun p => encPrims p.2) == e.2.2.2.2.map (fun s => normW s.2) &&
-        fieldNames i.flds encPrims == e.2.2.2.2.map (fun s => encFieldName e.1 s.1)
+        matchFlds encPrims (fun m f => m == encFieldName e.1 f) i.flds (e.2.2.2.2.map fun s => (s.1, normW s.2))
     | some .apl => e.2.1 == "APL" && e.2.2.1 == "in" && e.2.2.2.1 && e.2.2.2.2 == [("apitems", "rr_apl_apitem*")]
     -- K1 (recorded finding): the SVCB/HTTPS target goes through the COMPRESSING writer; the model does the same
     | some (.svcb _) => e.2.2.1 == "in" &&
@@ -225,11 +235,21 @@ theorem ext_c18_no_compressing_writer :
         rfc1035NameTypes.contains e.1 || e.1 == "SVCB" || e.1 == "HTTPS" ||
         e.2.2.2.2.all (fun s => s.2 != "domain_name")) = true := by decide
 
+/-- a run of unrolled `u8` calls and one `u8` call in a loop are the same thing for the symmetry check -/
+def collapse : List String → List String
+  | [] => []
+  | x :: xs =>
+    let x' := if x == "u8" then "u8*" else x
+    match collapse xs with
+    | y :: ys => if x' == "u8*" && y == "u8*" then y :: ys else x' :: y :: ys
+    | [] => [x']
+
 /-- reader and writer of one type perform the same steps in the same order (a name is a name whichever writer) -/
 theorem ext_reader_writer_symmetric :
     (Gen.decSteps.all fun d => Gen.encSteps.all fun e =>
         e.1 != d.1 ||
-        d.2.2.map (·.2) == e.2.2.2.2.map (fun s => if s.2 == "domain_name_uncompressed" then "domain_name" else normW s.2)) = true := by
+        collapse (d.2.2.map (·.2)) ==
+          collapse (e.2.2.2.2.map (fun s => if s.2 == "domain_name_uncompressed" then "domain_name" else normW s.2))) = true := by
   decide
 
 /-- the IN-only types are the same on both sides: the reader insists on class IN exactly where the writer emits
@@ -250,5 +270,8 @@ example : encEntryOk ("SRV", "SRV", "class", true, [("priority", "u16"), ("weigh
 example : encEntryOk ("SRV", "SRV", "class", true, [("priority", "u16"), ("weight", "u16"), ("port", "u16"),
     ("target", "domain_name")]) = false := by decide
 example : encEntryOk ("A", "A", "class", true, [("ipv4_addr", "ipv4_addr")]) = false := by decide
+example : decEntryOk ("EUI48", "class", [("_", "u8*")]) = true := by decide
+example : decEntryOk ("EUI48", "class", [("_", "u8"), ("_", "u8"), ("_", "u8"), ("_", "u8"), ("_", "u8")]) = false := by decide
+example : encEntryOk ("EUI64", "EUI64", "class", true, [("eui_64", "u8*")]) = true := by decide
 
 end TieSteps
